@@ -366,6 +366,13 @@ func (gt *gaugeTracker) CheckBlock(rc *RunCtx, ro *RewardObs, now time.Time) {
 		t.Rewards++
 		total := t.End.Sub(t.Start).Microseconds()
 		el := now.Sub(t.Start).Microseconds()
+		// block times have nanosecond resolution. "Elapsed, in whole microseconds" then has two readings that differ by one
+		// microsecond: whole microseconds elapsed (rounded down) and duration minus whole microseconds left (the chain's
+		// arithmetic, i.e. rounded up). Both are accepted: the release must lie between the two pro-rata values, +-1.
+		elHi := (now.Sub(t.Start).Nanoseconds() + 999) / 1000
+		if elHi > total {
+			elHi = total
+		}
 		for _, dep := range t.Deposit {
 			dn := dep.Denom
 			rel := sdk.ZeroInt()
@@ -395,8 +402,10 @@ func (gt *gaugeTracker) CheckBlock(rc *RunCtx, ro *RewardObs, now time.Time) {
 				}
 			} else if total > 0 {
 				want := new(big.Int).Div(new(big.Int).Mul(dep.Amount.BigInt(), big.NewInt(el)), big.NewInt(total))
-				diff := new(big.Int).Sub(cum.BigInt(), want)
-				if diff.CmpAbs(big.NewInt(1)) > 0 {
+				wantHi := new(big.Int).Div(new(big.Int).Mul(dep.Amount.BigInt(), big.NewInt(elHi)), big.NewInt(total))
+				below := new(big.Int).Sub(want, cum.BigInt()).Cmp(big.NewInt(1)) > 0
+				above := new(big.Int).Sub(cum.BigInt(), wantHi).Cmp(big.NewInt(1)) > 0
+				if below || above {
 					rc.Fail(P+"not-linear", "h=%d: gauge %s cumulative release %s%s, pro-rata floor(%s*%dus/%dus)=%s (recorded coins %s, deposited %s)", ro.Height, t.ID[:8], cum, dn, dep.Amount, el, total, want, t.Recorded, t.Deposit)
 				}
 			}
